@@ -65,7 +65,7 @@ func ruleBrkAtomic(w *World, r *Report) {
 
 // BRK-SLIDE: the clock stored by slide must depend on the quantised shift.
 func ruleBrkSlide(w *World, r *Report) {
-	r.Rule("BRK-SLIDE", "the value stored to OutboundBreaker.updated by slide depends (data or control) on the tick resolution derived from `interval`: advancing the clock to `now` unconditionally discards the sub-tick remainder, so a breaker polled faster than one tick never slides", 1)
+	r.Rule("BRK-SLIDE", "the value stored to OutboundBreaker.updated by slide is computed from the tick resolution derived from `interval` (whole ticks), or — if it drops the remainder — is stored only under a test of the shift against the window length: advancing the clock to `now` otherwise discards the sub-tick remainder, so a breaker polled faster than one tick never slides, or slides late", 1)
 	fn := w.Method("core", "OutboundBreaker", "slide")
 	isInterval := func(v ssa.Value) bool {
 		if fa, ok := v.(*ssa.FieldAddr); ok {
@@ -82,8 +82,19 @@ func ruleBrkSlide(w *World, r *Report) {
 		}
 		n++
 		key := "fn=" + fname(fn) + " store=updated"
-		if dependsOn(st.Val, isInterval) || controlDependsOn(fn, in, isInterval) {
-			r.ok("BRK-SLIDE", key, w.PosOf(in), "the new clock depends on the tick resolution")
+		isCounts := func(v ssa.Value) bool {
+			if fa, ok := v.(*ssa.FieldAddr); ok {
+				n, f, _, ok := fieldOf(fa)
+				return ok && typeKey(n) == ob && f == "counts"
+			}
+			return false
+		}
+		if dependsOn(st.Val, isInterval) {
+			r.ok("BRK-SLIDE", key, w.PosOf(in), "the new clock is computed from the tick resolution (whole ticks)")
+		} else if controlDependsOn(fn, in, isInterval) && controlDependsOn(fn, in, isCounts) {
+			r.ok("BRK-SLIDE", key, w.PosOf(in), "a clock value that drops the remainder is stored only under a test of the shift against the window length (everything has aged out)")
+		} else if controlDependsOn(fn, in, isInterval) {
+			r.violation("BRK-SLIDE", key, w.PosOf(in), "slide stores a clock value that drops the sub-tick remainder although part of the window is still occupied (not under a test against the window length): every shift loses up to one tick, and a full breaker polled steadily needs up to twice the interval to admit again")
 		} else {
 			r.violation("BRK-SLIDE", key, w.PosOf(in), "slide stores a clock value that does not depend on the quantised shift (sub-tick remainder lost on every call)")
 		}
